@@ -2,7 +2,7 @@
 import os
 from lib import fw
 
-MODULES = ["SunriseVerif.Props.C12"]
+MODULES = ["SunriseVerif.Props.C12", "SunriseVerif.Props.C12Full"]
 CORPUS = os.path.join(fw.VERIF, "corpus", "C12")
 
 
